@@ -1534,3 +1534,55 @@ Example history_with_rename :
             EMut fA (OCreate 1 4 bB); EMut fA (OLabel 4 [120])] in
   snd (adf_read Cur 100 (run_evs Cur 100 (s_of (adf_open ast0 fA true)) h) (fA, 3) 1) = AVal (RBytes [120]).
 Proof. vm_compute. reflexivity. Qed.
+
+(* ===================================================================================================================
+   13. the search-path list as state; creating under a link node
+   =================================================================================================================== *)
+(* cg_set_path with NULL or "" empties the list -- whatever it held *)
+Theorem set_path_empty_clears e a : arg_empty a = true -> mll_set_path e a = (env_path_delete_all e, true).
+Proof. intros H. unfold mll_set_path. now rewrite H. Qed.
+(* cg_set_path(p) replaces the list by [p] *)
+Theorem set_path_replaces e p : lenZ p <> 0 -> e_list (fst (mll_set_path e (Some p))) = [p] /\ snd (mll_set_path e (Some p)) = true.
+Proof.
+  intros H. unfold mll_set_path, arg_empty, env_path_add. destruct (Z.eqb_spec (lenZ p) 0); [contradiction|]. split; reflexivity.
+Qed.
+(* cg_add_path(p) appends, cg_add_path(NULL / "") fails and changes nothing; neither touches the environment variables *)
+Theorem add_path_appends e p : lenZ p <> 0 -> mll_add_path e (Some p) = (mkE (e_adf e) (e_hdf e) (e_cgns e) (e_list e ++ [p]), true).
+Proof. intros H. unfold mll_add_path, env_path_add. destruct (Z.eqb_spec (lenZ p) 0); [contradiction|reflexivity]. Qed.
+Theorem add_path_empty_refused e a : arg_empty a = true -> mll_add_path e a = (e, false).
+Proof. unfold mll_add_path, env_path_add, arg_empty. destruct a as [p|]; [|reflexivity]. now intros ->. Qed.
+(* after an emptying set, a relative name is looked for in the parent's directory, the current directory and the
+   environment variables only *)
+Theorem search_after_empty_set e a parent fn ft maxlen : arg_empty a = true -> hd 0 fn <> 47 ->
+  exists c1, candidates (fst (mll_set_path e a)) parent fn ft maxlen =
+    c1 ++ [CPath fn] ++ dir_cands (maxlen - 1 - lenZ fn - 1) fn (if ft =? 1 then e_adf e else if ft =? 2 then e_hdf e else [])
+       ++ dir_cands (maxlen - 1 - lenZ fn - 1) fn (e_cgns e).
+Proof.
+  intros Ha Hf. rewrite (set_path_empty_clears e a Ha). cbn [fst].
+  destruct (candidates_relative (env_path_delete_all e) parent fn ft maxlen Hf) as [c1 [_ E]]. exists c1. rewrite E.
+  cbn [env_path_delete_all e_adf e_hdf e_cgns e_list flat_map]. now rewrite app_nil_r.
+Qed.
+
+(* ADF refuses a child (or a link) under a link node it cannot put anywhere: in the model every create / link whose
+   parent is a link node fails and changes nothing (the generator never creates under a RESOLVING link, which ADF
+   redirects into the target) *)
+Theorem adf_create_under_link_refused v s f df p u nm pr : disk_get (a_disk s) f = Some df ->
+  find_node (d_tab df) p = Some pr -> is_link pr = true -> adf_mutate v s f (OCreate p u nm) = (s, RErr).
+Proof.
+  intros Hg Hp Hl. unfold adf_mutate. destruct (negb (file_open s f)); [reflexivity|]. rewrite Hg.
+  cbn [step_table]. unfold op_create. rewrite Hp. destruct (find_node (d_tab df) u); [reflexivity|].
+  rewrite Hl. cbn [negb]. rewrite andb_false_r. reflexivity.
+Qed.
+
+(* current ADFH refuses it as well, whatever the world: nothing changes *)
+Theorem h5_create_under_link_refused d f df o : disk_get d f = Some df -> h5_parent_is_link (d_tab df) o = true ->
+  h5_mutate Cur d f o = (d, RErr).
+Proof. intros Hg Hp. unfold h5_mutate. now rewrite Hg, Hp. Qed.
+
+(* history: before 66db802 ADFH accepted it -- under a DANGLING link too -- and the child was nowhere *)
+Definition w_dangling : disk := [mkD fH 2 (h5_root_table ++ [mkN 1 0 [76] [] s_LK [] [] (Some ([], [47; 78]))])].
+Theorem h5_create_under_dangling_link_old_refuted :
+  h5_get Cur w_dangling (fH, 1) 1 = AErr ELinkTarget /\ h5_mutate Old w_dangling fH (OCreate 1 2 [99]) = (w_dangling, ROk).
+Proof. split; vm_compute; reflexivity. Qed.
+Example h5_create_under_dangling_link_cur : h5_mutate Cur w_dangling fH (OCreate 1 2 [99]) = (w_dangling, RErr).
+Proof. vm_compute. reflexivity. Qed.
